@@ -271,6 +271,8 @@ def _atom_factor(model, f):
         sc, facs = _atom_factor(model, base)
         if exp > 0:
             return pow(sc, exp, P), facs * exp
+        if not facs:   # 1 / symbol^n
+            return pow(inv(sc), -exp, P), []
         if len(facs) != 1:
             raise HarnessError(f"cannot invert {f}")
         arr, idx = facs[0]
